@@ -346,6 +346,19 @@ fn gen_leaf(rng: &mut Rng, fl: &[u64], float_w: u64) -> E {
     }
 }
 
+fn int_leaf(v: i128, prefer_int: bool) -> Option<E> {
+    let as_int = if v >= i32::MIN as i128 && v <= i32::MAX as i128 { Some(E::Int(v as i32)) } else { None };
+    let as_nat = if v >= 0 && v <= u64::MAX as i128 { Some(E::Nat(v as u64)) } else { None };
+    if prefer_int { as_int.or(as_nat) } else { as_nat.or(as_int) }
+}
+
+fn related(rng: &mut Rng, l: &E) -> E {
+    let (v, was_int) = match l { E::Int(i) => (*i as i128, true), E::Nat(n) => (*n as i128, false), _ => (0, false) };
+    let w = match rng.below(6) { 0 | 1 => v, 2 => v + 1, 3 => v - 1, 4 => -v, _ => -v - 1 };
+    // prefer the *other* representation
+    int_leaf(w, !was_int).unwrap_or_else(|| l.clone())
+}
+
 fn gen_expr(rng: &mut Rng, fl: &[u64], depth: u32, float_w: u64) -> E {
     if depth == 0 { return gen_leaf(rng, fl, float_w); }
     match rng.below(10) {
@@ -355,7 +368,14 @@ fn gen_expr(rng: &mut Rng, fl: &[u64], depth: u32, float_w: u64) -> E {
             let op = if rng.chance(4, 5) { *rng.pick(&ARITH) } else { *rng.pick(&BIN_OPS) };
             let d1 = if rng.chance(1, 4) { depth - 1 } else { 0 };
             let d2 = if rng.chance(1, 4) { depth - 1 } else { 0 };
-            E::Bin(op, Box::new(gen_expr(rng, fl, d1, float_w)), Box::new(gen_expr(rng, fl, d2, float_w)))
+            let l = gen_expr(rng, fl, d1, float_w);
+            // one case in five: the right operand is *related* to the left one (the same integer in the other
+            // representation, a neighbour, the negation) - the boundary of comparisons, `-`, `//`, `%`
+            let r = match (&l, rng.chance(1, 5)) {
+                (E::Int(_) | E::Nat(_), true) => related(rng, &l),
+                _ => gen_expr(rng, fl, d2, float_w),
+            };
+            E::Bin(op, Box::new(l), Box::new(r))
         }
     }
 }
@@ -439,6 +459,25 @@ fn main() {
                             for r in &leaves {
                                 let e = E::Bin(op, Box::new(l.clone()), Box::new(r.clone()));
                                 run_input(&format!("x{}", id), &format!("(core {})", show(&e)));
+                                id += 1;
+                            }
+                        }
+                    }
+                }
+                // every tier: a compact grid (16 boundary leaves, both representations of the small integers) under
+                // the 13 arithmetic/comparison operators
+                {
+                    let small: Vec<E> = vec![
+                        E::Int(-2), E::Int(-1), E::Int(0), E::Int(1), E::Int(2), E::Int(i32::MAX), E::Int(i32::MIN),
+                        E::Nat(0), E::Nat(1), E::Nat(2), E::Nat(2147483647), E::Nat(2147483648), E::Nat(4294967296),
+                        E::Nat(u64::MAX), E::Bool(true), E::Bool(false),
+                    ];
+                    let mut id = 0usize;
+                    for op in ARITH {
+                        for l in &small {
+                            for r in &small {
+                                let e = E::Bin(op, Box::new(l.clone()), Box::new(r.clone()));
+                                run_input(&format!("s{}", id), &format!("(core {})", show(&e)));
                                 id += 1;
                             }
                         }
